@@ -288,9 +288,19 @@ class Episodes:
         g = self.groups.setdefault(segidx, {})
         return g.setdefault(id(obj), len(g))
 
+    def owner(self, f):
+        """the nearest enclosing frame that is the traversal generator, or a method of a selector / segment object"""
+        import jsonpath_rfc9535.selectors as S, jsonpath_rfc9535.segments as G
+        depth = 0
+        while f is not None and depth < 16:
+            if f.f_code.co_name == "_nondeterministic_visit": return ("visit", f, None)
+            slf = f.f_locals.get("self")
+            if isinstance(slf, S.JSONPathSelector): return ("sel", f, slf)
+            if isinstance(slf, G.JSONPathSegment): return ("seg", f, slf)
+            f = f.f_back; depth += 1
+        return None
+
     def visit_episode(self, f):
-        if f is None or f.f_code.co_name != "_nondeterministic_visit":
-            self.ok = False; return [None, 0, 0, []]
         k = id(f)
         if k not in self.bykey:
             self.keep.append(f)                                     # keeps the frame alive: its id is never reused
@@ -299,23 +309,36 @@ class Episodes:
             self.bykey[k] = e; self.eps.append(e)
         return self.bykey[k]
 
+    def sel_episode(self, f, sel):
+        si = self.seg_of_selector(sel)
+        if si is None: return [None, 0, 1, []]                      # a selector of a query nested in a filter
+        # the input node of the segment this selector belongs to: a local of the enclosing segment method
+        g = f.f_back; node = None; depth = 0
+        while g is not None and depth < 8:
+            if g.f_locals.get("self") is self.q.segments[si]:
+                node = g.f_locals.get("node"); break
+            g = g.f_back; depth += 1
+        e = [si, self.group(si, node), 1, []]; self.eps.append(e)
+        return e
+
     def __enter__(self):
         import sys, math, random
         self.saved = (random.randrange, random.shuffle)
         s = self.s
 
+        def episode():
+            o = self.owner(sys._getframe(2))
+            if o is None or o[0] == "seg":
+                self.ok = False; return [None, 0, 0, []]
+            return self.visit_episode(o[1]) if o[0] == "visit" else self.sel_episode(o[1], o[2])
+
         def randrange(n):
-            e = self.visit_episode(sys._getframe(1))
+            e = episode()
             v = s.take(n); e[3].append(s.trace[-1][0])
             return v
 
         def shuffle(x):
-            f = sys._getframe(1)
-            if f.f_code.co_name == "_nondeterministic_children": e = self.visit_episode(f.f_back)
-            else:
-                si = self.seg_of_selector(f.f_locals.get("self"))
-                fb = f.f_back
-                e = [si, self.group(si, fb.f_locals.get("node") if fb is not None else None) if si is not None else 0, 1, []]; self.eps.append(e)
+            e = episode()
             n = len(x)
             if n < 2: return
             idx = s.take(math.factorial(n)); e[3].append(s.trace[-1][0])
